@@ -209,8 +209,10 @@ void do_emit(TaskState &ts, const Op &op, int64_t tag)
   };
   uint8_t xt[16] = {0xe1, 0xe2, (uint8_t)ts.idx, (uint8_t)seed, 5, 6, 7, 8, 9, 1, 2, 3, 4, 5, 6, 7};
   uint8_t xs[8]  = {0xf1, (uint8_t)ts.idx, (uint8_t)seed, 4, 5, 6, 7, 8};
+  // explicit flags: half of the time the interesting small values 0 / 1
+  const uint8_t xflags = ((seed >> 8) & 1) ? (uint8_t)(seed >> 16) : (uint8_t)((seed >> 9) & 1);
   trace_api::SpanContext xctx(trace_api::TraceId(xt), trace_api::SpanId(xs),
-                              trace_api::TraceFlags((uint8_t)(seed >> 8)), true);
+                              trace_api::TraceFlags(xflags), true);
   auto &L = *w.logger;
   vsim::yield();
   {
@@ -282,7 +284,7 @@ void do_emit(TaskState &ts, const Op &op, int64_t tag)
         m.severity = (int)sev;
         m.trace_id = hex(xt, 16);
         m.span_id  = hex(xs, 8);
-        m.flags    = (uint8_t)(seed >> 8);
+        m.flags    = xflags;
         L.EmitLogRecord(xctx, sev, PairSpan(p.data(), p.size()));
         break;
       }
@@ -290,9 +292,9 @@ void do_emit(TaskState &ts, const Op &op, int64_t tag)
         auto p     = pairs(false);
         m.trace_id = hex(xt, 16);
         m.span_id  = hex(xs, 8);
-        m.flags    = (uint8_t)(seed >> 8);
+        m.flags    = xflags;
         L.EmitLogRecord(trace_api::TraceId(xt), trace_api::SpanId(xs),
-                        trace_api::TraceFlags((uint8_t)(seed >> 8)), body_value(),
+                        trace_api::TraceFlags(xflags), body_value(),
                         PairSpan(p.data(), p.size()));
         break;
       }
